@@ -1876,6 +1876,11 @@ class ApplyResult:
 
     def _set(self, i, obj):
         with self._mutex:
+            if self._event.is_set():
+                # already resolved (e.g. a result racing with a time limit
+                # or a lost-worker mark from another thread): the first
+                # outcome stands.
+                return
             if self._on_timeout_cancel:
                 self._on_timeout_cancel(self)
             self._success, self._value = obj
